@@ -154,8 +154,25 @@ func c20Address(id, a []byte) (string, string) {
 	if sys != refIsSystemAccount(a) {
 		return "address/system-account", sprintf("IsSystemAccountAddress(%x) = %v", a, sys)
 	}
+	// the classification depends on the bytes of the address only, not on what lies behind it in memory: the same
+	// address as a view into a larger buffer (spare capacity filled with zeros, then with 0xff) classifies identically
+	for _, fill := range []byte{0x00, 0xff} {
+		big := append(append(make([]byte, 0, len(a)+40), a...), bytesOf(fill, 40)...)
+		view := big[:len(a)]
+		var sc2, meta2, sys2, empty2 bool
+		if p := noPanic(func() {
+			sc2, meta2, sys2, empty2 = vmcommon.IsSmartContractAddress(view), vmcommon.IsSmartContractOnMetachain(id, view), vmcommon.IsSystemAccountAddress(view), vmcommon.IsEmptyAddress(view)
+		}); p != nil {
+			return "address/panic", sprintf("classification of a view of %x panicked: %v", a, p)
+		}
+		if sc2 != sc || meta2 != meta || sys2 != sys || empty2 != empty {
+			return "address/reads-beyond-length", sprintf("id=%x addr=%x classifies differently when %d bytes of %#x follow it in memory", id, a, 40, fill)
+		}
+	}
 	return "", ""
 }
+
+func bytesOf(v byte, n int) []byte { return bytes.Repeat([]byte{v}, n) }
 
 func c20AddressDomain(visit func(id, a []byte)) {
 	ids := [][]byte{{}, {0xff}, {0xff, 0xff}, {0x00}, {0xff, 0x00}, {0x00, 0xff}, {0xfe}}
@@ -383,7 +400,8 @@ func genOptHex(t *rapid.T, label string, pool [][]byte) *string {
 }
 
 func genOA(t *rapid.T, label string) oaCase {
-	bigs := []string{"0", "1", "-1", "255", "-256", "18446744073709551616", "-340282366920938463463374607431768211456", "7"}
+	bigs := []string{"0", "1", "-1", "255", "-256", "18446744073709551616", "-340282366920938463463374607431768211456", "7",
+		"4611686018427387904", "9223372036854775807", "-9223372036854775808", "9223372036854775808", "5000000000000000000", "-5000000000000000000"}
 	optBigGen := func(l string) *string {
 		k := rapid.IntRange(0, len(bigs)).Draw(t, label+l)
 		if k == len(bigs) {
